@@ -15,4 +15,10 @@ def jobs(tier):
                     ('h_jm_slice', ['C13'], 'jmespath slice_projection::evaluate visits exactly the Python-slice elements; step 0 -> error')):
         J.append(dict(id=h[2:], harness=h, props=p, unwind=sz + 3, defs=dict(SZ=sz), timeout=900, desc=d, bound='size <= %d, any int64 start/stop/step' % sz))
         J.append(dict(id=h[2:] + '_safety', harness=h, props=['C05'] + p, unwind=sz + 3, defs=dict(SZ=sz), timeout=900, safety=True, desc=d + ' [safety mode: clang UBSan traps for signed overflow etc.]', bound='size <= %d, any int64 start/stop/step' % sz))
+    J.append(dict(id='jp_index', harness='h_jp_index', props=['C12'], unwind=4, defs=dict(SZ=sz), timeout=300, desc='jsonpath index_selector::select: element i, or size+i for negative i, else nothing', bound='any int64 index, any array size'))
+    J.append(dict(id='jp_index_safety', harness='h_jp_index', props=['C05', 'C12'], unwind=4, defs=dict(SZ=sz), timeout=300, safety=True, desc='index_selector::select [safety mode: no signed overflow]', bound='any int64 index, any array size'))
+    J.append(dict(id='jm_index', harness='h_jm_index', props=['C13'], unwind=4, defs=dict(SZ=sz), timeout=300, desc='jmespath index_selector::evaluate: element i, or size+i for negative i, else null', bound='any int64 index, any array size'))
+    J.append(dict(id='jm_index_safety', harness='h_jm_index', props=['C05', 'C13'], unwind=4, defs=dict(SZ=sz), timeout=300, safety=True, desc='jmespath index_selector::evaluate [safety mode: no signed overflow]', bound='any int64 index, any array size'))
+    for n in ([1, 2, 3, 4] if tier != 'thorough' else [1, 2, 3, 4, 5, 6]):
+        J.append(dict(id='jp_escape_n%d' % n, harness='h_jp_escape', props=['C12'], unwind=n + 8, defs=dict(NE2=n), timeout=300, desc='jsonpath::escape_string (names in normalized paths): un-escaping gives the member name back', bound='all names of length %d' % n))
     return J
